@@ -28,6 +28,7 @@ class TOp:
     multi: bool = False           # returns several tensors
     smooth: bool = True           # differentiable on the generated domain (no ties / kinks)
     tol64: float = 1e-12          # forward tolerance (relative to result scale) for float64 operands
+    scales: tuple = (1.0,)        # operand magnitudes the op is exercised at (value grid times one of these)
     torch: Optional[Callable] = None
 
 
@@ -880,6 +881,9 @@ def _sq_tags(args, shapes):
 
 
 BY_NAME = {o.name: o for o in OPS}
+for _n in ("binary", "scalar_arith", "neg", "matmul", "addmm", "getitem", "concat", "stack", "unbind", "clone", "sum", "mean",
+           "max", "min", "squeeze", "unsqueeze", "reshape", "movedim", "transpose", "flatten", "unfold_dim", "sqrt"):
+    BY_NAME[_n].scales = (1.0, 1.0, 1.0, 128.0, 1.0 / 64)
 
 # documented-argument predicates that need more than a lambda ---------------------------------
 BY_NAME["squeeze"].documented = lambda a, s: True          # "dim (int or tuple, optional)"
@@ -903,6 +907,8 @@ def full_case(draw, op, need_grad=True):
     c["rg"] = rg
     c["g"] = draw(gen.upstream())
     c["gdtype"] = draw(st.sampled_from(["same", "same", "other"]))
+    c["layout"] = draw(st.sampled_from(["C", "C", "C", "F", "strided", "neg_strided"]))
+    c["scale"] = draw(st.sampled_from(list(op.scales)))
     c["wrap"] = draw(st.booleans())
     if op.multi:
         c["oi"] = draw(st.integers(0, 7))
@@ -913,18 +919,33 @@ def shapes_of(case):
     return [x["shape"] for x in case["xs"]]
 
 
+def _layout(a, layout):
+    """same values, different memory layout (the property quantifies over tensors, not over contiguity)"""
+    if layout == "F" and a.ndim >= 2:
+        return np.asfortranarray(a)
+    if layout == "strided" and a.ndim >= 1:
+        big = np.zeros(a.shape[:-1] + (2 * a.shape[-1],), dtype=a.dtype)
+        big[..., ::2] = a
+        return big[..., ::2]
+    if layout == "neg_strided" and a.ndim >= 1:
+        return np.ascontiguousarray(a[::-1])[::-1]
+    return a
+
+
 def leaves(case, dtype=None, rg=None):
     dt = np.dtype(dtype or case["dtype"])
+    sc = case.get("scale", 1.0)
     out = []
     for i, x in enumerate(case["xs"]):
-        a = gen.arr(x["v"], x["shape"], dt)
+        a = _layout((gen.arr(x["v"], x["shape"], np.float64) * sc).astype(dt), case.get("layout", "C"))
         r = bool(rg[i]) if rg is not None else False
         out.append(Tensor(a, requires_grad=r))
     return out
 
 
 def arrays(case, dtype=np.float64):
-    return [gen.arr(x["v"], x["shape"], dtype) for x in case["xs"]]
+    sc = case.get("scale", 1.0)
+    return [(gen.arr(x["v"], x["shape"], np.float64) * sc).astype(dtype) for x in case["xs"]]
 
 
 def pick(out, case):
